@@ -15,6 +15,7 @@ import (
 	"strings"
 	"sync"
 	"sync/atomic"
+	"time"
 )
 
 // Reply is what a handler decides to send.
@@ -29,6 +30,16 @@ type Reply struct {
 	Err       error // transport error instead of a response
 	BodyErrAt int   // >0: body read fails after this many bytes
 	Stream    int64 // >0: body is this many zero bytes, streamed
+	// PanicOnRead: RoundTrip answers normally; the BODY panics with this value
+	// the first time it is read
+	PanicOnRead any
+	// StallAt > 0: after that many bytes the body calls OnStall (once) and then
+	// blocks until the request's context is done, which it reports as its error
+	StallAt int
+	OnStall func()
+	// SlowClose makes Close take that long (observers of what is still running
+	// when a call returns can then see a Close left behind)
+	SlowClose time.Duration
 	// Endless: the body (after Body's bytes) never ends - zeros for as long as
 	// anyone reads, until it is closed
 	Endless bool
@@ -95,10 +106,12 @@ type Sim struct {
 	// has been logged; n is the global 0-based request index.
 	OnRequest func(n int, r *Request)
 	// Default, if set, serves requests that match no route.
-	Default Handler
-	nreq    int
-	over    bool // the caller declared the call that used this network finished
-	late    int  // requests that began after that
+	Default   Handler
+	nreq      int
+	over      bool // the caller declared the call that used this network finished
+	late      int  // requests that began after that
+	closing   int  // body Close calls in progress
+	lateClose int  // body Close calls that began after the call was declared finished
 }
 
 // New creates an empty network.
@@ -146,16 +159,67 @@ type trackedBody struct {
 	io.ReadCloser
 	s    *Sim
 	once sync.Once
+	slow time.Duration
 }
 
 func (b *trackedBody) Close() error {
+	b.s.mu.Lock()
+	b.s.closing++
+	if b.s.over {
+		b.s.lateClose++
+	}
+	b.s.mu.Unlock()
+	if b.slow > 0 {
+		time.Sleep(b.slow)
+	}
 	b.once.Do(func() {
 		b.s.mu.Lock()
 		b.s.bodies--
 		b.s.mu.Unlock()
 	})
-	return b.ReadCloser.Close()
+	err := b.ReadCloser.Close()
+	b.s.mu.Lock()
+	b.s.closing--
+	b.s.mu.Unlock()
+	return err
 }
+
+// panicBody panics on its first Read.
+type panicBody struct{ v any }
+
+func (p *panicBody) Read([]byte) (int, error) { panic(p.v) }
+func (p *panicBody) Close() error             { return nil }
+
+// stallBody delivers data up to at, then waits for the request context.
+type stallBody struct {
+	data []byte
+	at   int
+	off  int
+	on   func()
+	once sync.Once
+	done <-chan struct{}
+	err  func() error
+}
+
+func (b *stallBody) Read(p []byte) (int, error) {
+	if b.off < b.at && b.off < len(b.data) {
+		end := b.at
+		if end > len(b.data) {
+			end = len(b.data)
+		}
+		n := copy(p, b.data[b.off:end])
+		b.off += n
+		return n, nil
+	}
+	b.once.Do(func() {
+		if b.on != nil {
+			b.on()
+		}
+	})
+	<-b.done
+	return 0, b.err()
+}
+func (b *stallBody) Close() error { return nil }
 
 // OpenBodies returns the number of response bodies handed out and not closed.
 func (s *Sim) OpenBodies() int {
@@ -164,11 +228,20 @@ func (s *Sim) OpenBodies() int {
 	return s.bodies
 }
 
-// CallOver marks the end of the call that was handed this network.
-func (s *Sim) CallOver() {
+// CallOver marks the end of the call that was handed this network; it returns
+// the number of body Close calls in progress at that moment.
+func (s *Sim) CallOver() int {
 	s.mu.Lock()
+	defer s.mu.Unlock()
 	s.over = true
-	s.mu.Unlock()
+	return s.closing
+}
+
+// LateCloses returns the number of body Close calls that began after CallOver.
+func (s *Sim) LateCloses() int {
+	s.mu.Lock()
+	defer s.mu.Unlock()
+	return s.lateClose
 }
 
 // Late returns the number of requests that began after CallOver.
@@ -368,6 +441,10 @@ func (s *Sim) RoundTrip(hr *http.Request) (resp *http.Response, err error) {
 	}
 	var rc io.ReadCloser
 	switch {
+	case rep.PanicOnRead != nil:
+		rc = &panicBody{v: rep.PanicOnRead}
+	case rep.StallAt > 0:
+		rc = &stallBody{data: rep.Body, at: rep.StallAt, on: rep.OnStall, done: hr.Context().Done(), err: hr.Context().Err}
 	case rep.Endless:
 		rc = &endlessBody{prefix: append([]byte{}, rep.Body...)}
 	case rep.Stream > 0:
@@ -380,7 +457,7 @@ func (s *Sim) RoundTrip(hr *http.Request) (resp *http.Response, err error) {
 	s.mu.Lock()
 	s.bodies++
 	s.mu.Unlock()
-	rc = &trackedBody{ReadCloser: rc, s: s}
+	rc = &trackedBody{ReadCloser: rc, s: s, slow: rep.SlowClose}
 	return &http.Response{
 		StatusCode: st, Status: fmt.Sprintf("%d %s", st, http.StatusText(st)),
 		Proto: "HTTP/1.1", ProtoMajor: 1, ProtoMinor: 1,
